@@ -156,12 +156,12 @@ theorem rule_unique_variable_names_iff (s : SchemaD) (fx : Fixes) (d : Doc) :
 
 /-! non-vacuity: `query($a: Int, $b: Int) { f }` is silent, `query($a: Int, $a: Int) { f }` is reported -/
 example : Spec.uniqueVariableNames
-    ⟨[.op "query" none [⟨"a", .named "Int", none⟩, ⟨"b", .named "Int", none⟩] [] 0 [.field none "f" [] [] false 0 []]]⟩ := by
+    ⟨[.op "query" none [{ name := "a", type := .named "Int", default := none }, { name := "b", type := .named "Int", default := none }] [] 0 [.field none "f" [] [] false 0 []]]⟩ := by
   intro x hx k n vs ds i ss e
   simp only [List.mem_singleton] at hx
   subst hx; cases e; decide
 example : ¬ Spec.uniqueVariableNames
-    ⟨[.op "query" none [⟨"a", .named "Int", none⟩, ⟨"a", .named "Int", none⟩] [] 0 [.field none "f" [] [] false 0 []]]⟩ := by
+    ⟨[.op "query" none [{ name := "a", type := .named "Int", default := none }, { name := "a", type := .named "Int", default := none }] [] 0 [.field none "f" [] [] false 0 []]]⟩ := by
   intro h
   have := h _ (List.mem_singleton.mpr rfl) _ _ _ _ _ _ rfl
   revert this; decide
